@@ -644,8 +644,14 @@ def _mk_graph(case):
         def f(*args, _nm=nd["name"], _kind=nd["kind"]):
             calls[_nm] += 1
             flat = []
-            for a in args:
-                flat.extend(a if isinstance(a, (tuple, list)) else [a])
+
+            def _flatten(a):
+                if isinstance(a, (tuple, list)):
+                    for b in a:
+                        _flatten(b)
+                else:
+                    flat.append(a)
+            _flatten(args)
             if _kind == "sum":
                 return sum(flat)
             out = 1
